@@ -309,6 +309,28 @@ def task_corpus_perms(args):
     return n, out, classes
 
 
+def full_message_orders():
+    """rotations and reversal of the full 13-attribute message"""
+    from yabgp.message.update import Update
+    codes = sorted(ATTRS13)
+    base = None
+    nfull = 0
+    extra = []
+    for order in [codes[k:] + codes[:k] for k in range(len(codes))] + [codes[::-1]]:
+        data = upd.encode_update({'attr': ATTRS13, 'nlri': ['192.0.2.0/24']}, True, False, {'order': order})
+        st, got, steps = budget.run(300 + 60 * len(data), Update.parse, None, data[19:], True)
+        nfull += 1
+        if st != 'ok':
+            extra.append(('C15|attribute-order|decoding failed for an order of the full message', {'order': order, 'hex': data.hex()}))
+            continue
+        v = codec.norm(got['attr'])
+        if base is None and not got.get('sub_error'):
+            base = v
+        elif v != base or got.get('sub_error'):
+            extra.append(('C15|attribute-order|decoded attributes depend on their order (full message)', {'order': order}))
+    return nfull, extra
+
+
 def _dispatch(t):
     return {'pairs': task_pairs, 'perms': task_perms, 'corpus': task_corpus_perms}[t[0]](t[1])
 
@@ -352,28 +374,15 @@ def run(tier, seed):
     for i in range(0, len(cu), 4):
         tasks.append(('corpus', cu[i:i + 4]))
     res = explore.pmap(_dispatch, tasks, chunk=1)
-    # rotations and reversal of the full 13-attribute message
-    from yabgp.message.update import Update
-    base = None
-    nfull = 0
-    extra = []
-    for order in [codes[k:] + codes[:k] for k in range(len(codes))] + [codes[::-1]]:
-        data = upd.encode_update({'attr': ATTRS13, 'nlri': ['192.0.2.0/24']}, True, False, {'order': order})
-        got = Update.parse(None, data[19:], True)
-        nfull += 1
-        v = codec.norm(got['attr'])
-        if base is None:
-            base = v
-        elif v != base or got.get('sub_error'):
-            extra.append(('C15|attribute-order|decoded attributes depend on their order (full message)', {'order': order}))
+    nfull, extra = full_message_orders()
     explore.close_pool()
     total = nfull
     classes = set()
-    for n, out, cl in res:
+    for t, (n, out, cl) in zip(tasks, res):
         total += n
         classes |= cl
         for k, det in out:
-            col.add(k, det, det)
+            col.add(k, det, det, task=None if t[0] == 'pairs' else t)
     for k, det in extra:
         col.add(k, det, det)
     n_new, n_known, summary = col.finish('c15-case')
@@ -398,23 +407,20 @@ def replay(path):
     d = json.load(open(path))
     w = d['witness']
     if 'elements' not in w:
-        print(json.dumps(d, indent=1)[:1500])
-        return 1
+        print(json.dumps(d.get('detail'), indent=1)[:1500])
+        if 'task' in d:
+            rc = report.replay_in_task(d, _dispatch)
+            return rc
+        return 1 if d['key'] in [k for k, _ in report.fresh(full_message_orders)[1]] else 0
     parts = [bytes.fromhex(x) for x in w['elements']]
-    dec = decoders()[w['kind']]
-    one = 'one-per-parameter' in w['kind']
-    sep = [budget.run(100000, dec, [p] if one else p)[:2] for p in parts]
-    tog = budget.run(100000, dec, parts if one else b''.join(parts))[:2]
-    tog2 = budget.run(100000, dec, parts if one else b''.join(parts))[:2]
-    if repr(tog) != repr(tog2):
+    t = (w['kind'], parts, [tuple(range(len(parts)))], None)
+    a, b = report.twice(task_pairs, t)
+    if repr(a[1]) != repr(b[1]):
         print('HARNESS-ERROR: replay is not deterministic')
         return 2
-    print('kind', w['kind'])
-    for p, s in zip(parts, sep):
-        print('  D(%s) = %r' % (p.hex(), s))
-    print('  D(concatenation) = %r' % (tog,))
-    want = want2 = codec.norm(sep[0][1])
-    for s in sep[1:]:
-        want = join(w['kind'], want, codec.norm(s[1]))
-        want2 = join(w['kind'], want2, codec.norm(s[1]), True)
-    return 1 if tog[0] != 'ok' or codec.norm(tog[1]) not in (want, want2) else 0
+    print('kind', w['kind'], 'elements', w['elements'])
+    for k, det in a[1]:
+        print(k)
+        print('  separately:', det.get('separately'))
+        print('  together  :', det.get('together'))
+    return 1 if d['key'] in [k for k, _ in a[1]] else 0
